@@ -6,8 +6,9 @@ usage: seed_check.py [name ...]        (default: every directory under /verif/se
 For each /verif/seeded/<name>/{patch.diff, demo_test.go, meta.json}:
  1. in a scratch worktree of /repo's HEAD (under /tmp, removed at the end): the patch applies, builds, vets,
     the 972-test baseline still passes, the demonstration fails with the patch and passes without it;
- 2. git -C /repo apply patch.diff; every claimed property's quick check (own process each, evidence written to a
-    scratch directory, controls off); git -C /repo checkout -- .   (nothing is ever committed to /repo);
+ 2. git -C /repo apply patch.diff; the rules of every claimed property (ionlint -all -tier quick: one load, the same
+    rules as the 20 quick commands, evidence written to a scratch directory, controls off); git -C /repo checkout -- .
+    (nothing is ever committed to /repo);
  3. meta.json is updated: confirmed_on (commit), caught_by, reported violations.
 Prints one line per seed and a summary table.
 """
@@ -82,19 +83,17 @@ def main():
                     os.makedirs(evdir + "/evidence", exist_ok=True)
                     shutil.copy("/verif/known_findings.json", evdir)
 
-                    def run(p):
-                        env = dict(ENV, IONLINT_VERIF=evdir)
-                        pr = subprocess.run(["/verif/bin/ionlint", "-property", p, "-tier", "quick"], cwd="/verif", env=env, stdout=subprocess.PIPE, stderr=subprocess.STDOUT, text=True)
+                    env = dict(ENV, IONLINT_VERIF=evdir)
+                    pr = subprocess.run(["/verif/bin/ionlint", "-all", "-tier", "quick"], cwd="/verif", env=env, stdout=subprocess.PIPE, stderr=subprocess.STDOUT, text=True)
+                    codes = dict(re.findall(r"== (C\d\d) exit (\d)", pr.stdout))
+                    for p in props:
+                        code = int(codes.get(p, "2"))
                         viol = []
                         vf = f"{evdir}/evidence/{p}.violations.json"
-                        if pr.returncode == 1 and os.path.exists(vf):
+                        if code == 1 and os.path.exists(vf):
                             for v in json.load(open(vf)).get("violations", []):
                                 viol.append({"rule": v.get("rule"), "key": v.get("key"), "pos": v.get("pos"), "detail": (v.get("detail") or "")[:240]})
-                        return p, pr.returncode, viol, pr.stdout[-400:]
-
-                    with concurrent.futures.ThreadPoolExecutor(10) as ex:
-                        for p, code, viol, tail in ex.map(run, props):
-                            det[p] = {"exit": code, "violations": viol, "tail": tail if code not in (0, 1) else ""}
+                        det[p] = {"exit": code, "violations": viol, "tail": pr.stdout[-400:] if code not in (0, 1) else ""}
                     shutil.rmtree(evdir, ignore_errors=True)
                 finally:
                     sh("git checkout -- .", "/repo")
